@@ -25,7 +25,7 @@ KIND_BITS = {"FS_READWRITE": 64 | 32, "FS_READ": 64, "FS_WRITE": 32, "FS_TEMP": 
 # dlopen is used by `native` (dynamic modules) and by ffi/native (ffi-define): it is a violation only when both are disabled,
 # or when the calling function's own capability is disabled (decided per function name below)
 
-DENY = ["os/exit", "os/posix-exec", "os/posix-fork", "os/posix-chroot", "quit", "sandbox", "repl", "debugger", "debugger-on-status", "getline", "cli-main", "run-context",
+DENY = ["os/exit", "os/posix-fork", "os/posix-chroot", "quit", "sandbox", "repl", "debugger", "debugger-on-status", "getline", "cli-main", "run-context",
         "stdin", "os/sleep", "ev/sleep", "ev/deadline", "ev/cancel", "ev/thread", "os/proc-wait", "os/proc-kill", "os/proc-close", "gcsetinterval",
         # raw-pointer FFI calls: arbitrary memory access, not observable through libc
         "ffi/call", "ffi/trampoline", "ffi/read", "ffi/write", "ffi/free", "ffi/malloc", "ffi/pointer-buffer", "ffi/pointer-cfunction", "ffi/calling-conventions",
@@ -63,6 +63,12 @@ DRIVER = r'''
    [cmd] [[cmd]] [[cmd] :p] [[cmd] :px {:out :pipe}] [(string cmd " arg")]
    ["VERIF_ENV_VAR"] ["VERIF_ENV_VAR" "val"] [so] [so :lazy] [:int] [:alrm (fn [&] nil)] [:term (fn [&] nil) true] [1] [0.001] [@"\xc3"] [(fn [&] nil)] [:monotonic] [:realtime] [:cputime]
    [m1 :rwct] [m1 :e] [m1 :x] [m1 :r+] [m1 :wn] [m1 :an]])
+# functions that replace the process: only called when the capability they need is disabled in this run (they must raise)
+(def only-when-disabled {'os/posix-exec :subprocess})
+(def disabled-now (tabseq [f :in flags] f true))
+(defn callable? [name]
+  (def need (get only-when-disabled name))
+  (if need (or (disabled-now need) (disabled-now :all)) (not (get deny name))))
 (defn run-all [tag]
   # library code that installs files works below (dyn :syspath): keep it inside the scratch directory in every thread
   (setdyn :syspath (string scratch "/syspath"))
@@ -70,7 +76,7 @@ DRIVER = r'''
   (def root-names (sort (filter symbol? (all-bindings root-env true))))
   (each name root-names
     (def v (get-in root-env [name :value] (get-in root-env [name :ref 0])))
-    (when (and (or (function? v) (cfunction? v)) (not (get deny name)))
+    (when (and (or (function? v) (cfunction? v)) (callable? name))
       (var si -1)
       (each sh shapes
         (++ si)
@@ -219,6 +225,12 @@ def run(ctx):
         want = flagword(sub)
         if "DRIVER-DONE" not in err or "SWEEP-DONE|" not in err:
             last = [l for l in err.splitlines() if l.startswith("CALL|")][-1:]
+            if last and "|os/posix-exec|" in last[0] and (want & 2):
+                execs = [l for l in err.splitlines() if l.startswith("SHIM|") and "|SUBPROCESS|exec" in l]
+                if execs:
+                    ctx.violation("forbidden-os-call:SUBPROCESS:os/posix-exec:%s" % mode, "with sandbox %s (%s): (os/posix-exec ...) replaced the process (%s) although subprocesses are disabled" %
+                                  (sub, mode, execs[-1][:120]), files)
+                    return
             with ctx.lock:
                 ctx.inconclusive.append("driver-incomplete:%s:%s:%s rc=%s sig=%s timed_out=%s tail=%r" % (mode, ",".join(sub), last[0] if last else "?", res.rc, res.sig, res.timed_out, err[-400:]))
             return
